@@ -118,6 +118,7 @@ static void Mutex__ctor_default(struct Mutex *m) { m->d = 0; }
 static void CondVar__ctor_default(struct CondVar *c) { c->d = 0; }
 static void Mutex__lock(struct Mutex *m) {
   struct Res *s = g_self;
+  __CPROVER_assert(!g_mheld, "C15 the mutex is not locked twice by one thread"); g_mheld = 1;
   havoc_shared(s);
   __CPROVER_assume(INV_INSTANCES(s));
   g_bound_at_lock = s->m_upperUnlockBound; g_popped_watched = 0; g_tst_at_lock = g_tst;
@@ -131,6 +132,7 @@ static void Mutex__lock(struct Mutex *m) {
 }
 static void Mutex__unlock(struct Mutex *m) {
   struct Res *s = g_self;
+  __CPROVER_assert(g_mheld, "C15 the mutex is unlocked only when held"); g_mheld = 0;
   if (g_mode == 0) {      /* lock() returning: the caller becomes a holder at this release */
     if (g_waited) {
       if (g_me) { __CPROVER_assert(g_tst == T_ADM, "C03 the owner of a ticket returns only when it is admitted"); g_tst = T_NONE; }
